@@ -34,7 +34,7 @@ CLAIMED = {
          "Structural agreements between the stages of the compile pipeline (encoder/decoder bit layout, operator tables, dispatch exhaustiveness, nil-continuation returns, scope-exit clears, private registers): each is a necessary condition — breaking one miscompiles some program. Agreement of the implemented semantics with the manual over all programs is not decided.",
          "Trusted: go/ssa, frozen operator tables confirmed by reading. Not decided: behavioural equivalence with the manual (values, evaluation order, call protocol, register allocation in general, jump resolution).",
          "DESIGN.md 3 (R-SIBLING, R-SCOPE, R-NILNIL), 4 (C01)"),
- "C12": ("comparison of the scanner/parser/operator tables (read from package-initialiser SSA and declared constants) with reference tables transcribed from the manual; comparison-shape analysis of the precedence-climbing loop; must-edge length proofs for literal indexing; nearest-failed-type-test analysis of syntax-error sites",
+ "C12": ("comparison of the scanner/parser/operator tables (read from package-initialiser SSA and declared constants) with reference tables transcribed from the manual; comparison-shape analysis of the precedence-climbing loop; must-edge length proofs for literal indexing; nearest-failed-type-test analysis of syntax-error sites; constant-argument check of the decimal numeral conversion; who-may-call scan of the literal decoders for Go's sanitising UTF-8 encoders",
          "Table-shaped and shape-visible part of the front end: reserved words, symbols, token-to-operator maps, all 300 pairwise precedences, the two right-associative exceptions, in-range literal indexing, and error sites blaming the token just examined. Acceptance of the whole grammar and literal denotations are not decided.",
          "Trusted: go/ssa; reference tables transcribed from the manual §3.1, §3.4.8. Not decided: grammar acceptance, numeral and escape denotation, spelling invariance.",
          "DESIGN.md 3 (R-SIBLING precedence part, R-LITERAL, R-BLAME), 4 (C12)"),
